@@ -646,6 +646,81 @@ func checkBoundedFill(c *Ctx, r *Rec, rule string, info *types.Info, fd *ast.Fun
 			return true
 		})
 	}
+	// ... or a visitor: a declared function of the package that runs the function literal it is
+	// handed once for every element of a sequence or iterator it is handed (a covering loop)
+	visitSrc := map[ast.Stmt]ast.Expr{}
+	inspectNoLit(fd.Body, func(x ast.Node) bool {
+		es, ok := x.(*ast.ExprStmt)
+		if !ok {
+			return true
+		}
+		call, ok := es.X.(*ast.CallExpr)
+		if !ok {
+			return true
+		}
+		d := c.declOf(calleeOf(info, call))
+		if d == nil || d.Body == nil || c.infoFor(d) == nil {
+			return true
+		}
+		dinfo := c.infoFor(d)
+		dps := paramObjs(dinfo, d)
+		for ai, a := range call.Args {
+			lit, isLit := ast.Unparen(a).(*ast.FuncLit)
+			if !isLit || ai >= len(dps) {
+				continue
+			}
+			// the visitor calls that parameter inside a loop of its own
+			inLoop := false
+			for _, l := range loopsIn(d.Body) {
+				inspectNoLit(l, func(y ast.Node) bool {
+					if cc, ok := y.(*ast.CallExpr); ok && isObj(dinfo, cc.Fun, dps[ai]) {
+						inLoop = true
+					}
+					return true
+				})
+			}
+			if !inLoop {
+				continue
+			}
+			// what is visited: the other argument (X.GetIterator(), X.AsArray() or X itself)
+			var src ast.Expr
+			for bi, b := range call.Args {
+				if bi == ai {
+					continue
+				}
+				b = ast.Unparen(b)
+				if rx, mname, _, ok := methodCall(b); ok && (mname == "GetIterator" || mname == "AsArray") {
+					src = rx
+				} else if t := info.TypeOf(b); t != nil && (isCollectionLike(t) || isGoContainer(t)) {
+					src = b
+				}
+			}
+			if src == nil {
+				continue
+			}
+			inspectNoLit(lit.Body, func(y ast.Node) bool {
+				if rx, mname, _, ok := methodCall(y); ok && mname == "AddValue" {
+					if id, ok := ast.Unparen(rx).(*ast.Ident); ok {
+						if t := info.Types[id].Type; t != nil && isQueueT(t) {
+							o := info.Uses[id]
+							isParam := false
+							for _, p := range paramObjs(info, fd) {
+								if p == o {
+									isParam = true
+								}
+							}
+							if v, ok := o.(*types.Var); ok && !isParam && !v.IsField() {
+								fills = append(fills, fill{o, es})
+								visitSrc[es] = src
+							}
+						}
+					}
+				}
+				return true
+			})
+		}
+		return true
+	})
 	if len(fills) == 0 {
 		return 0
 	}
@@ -723,6 +798,9 @@ func checkBoundedFill(c *Ctx, r *Rec, rule string, info *types.Info, fd *ast.Fun
 			if rs, ok := loop.(*ast.RangeStmt); ok {
 				src = tracker.sizeAt(st, rs.X)
 			}
+			if vs, ok := visitSrc[loop]; ok {
+				src = tracker.sizeAt(st, vs)
+			}
 			if src == nil {
 				src = tracker.n
 			}
@@ -741,6 +819,11 @@ func checkBoundedFill(c *Ctx, r *Rec, rule string, info *types.Info, fd *ast.Fun
 			}
 		}
 		prevLoop(st, loop)
+	}
+	env.onCallStmt = func(st *symState, s *ast.ExprStmt) {
+		if _, ok := visitSrc[s]; ok {
+			env.onLoop(st, s)
+		}
 	}
 	symRun(env, fd.Body)
 	sites := 0
